@@ -226,6 +226,7 @@ macro_rules! sep_rel {
         }
     };
 }
+sep_rel!(seprel_f64_t_3, f64, 3, 5, false, false, true, false);
 sep_rel!(seprel_f64_t_4, f64, 4, 6, false, false, true, false);
 sep_rel!(seprel_f64_iltc_4, f64, 4, 6, true, true, true, true);
 sep_rel!(seprel_f64_l_4, f64, 4, 6, false, true, false, false);
